@@ -6,6 +6,10 @@ use vstd::prelude::*;
 use std::collections::VecDeque;
 verus! {
 
+// std functions without a vstd specification that handler bodies may use (assumption A1)
+pub assume_specification<T: Default>[ core::mem::take::<T> ](dest: &mut T) -> (r: T)
+    ensures r == *old(dest), call_ensures(T::default, (), *final(dest));
+
 pub type Item = i64;
 pub type Key = u8;
 
